@@ -34,7 +34,9 @@ class Handler(http.server.BaseHTTPRequestHandler):
             body = data[a:b + 1]
             self.send_response(206); self.send_header("Content-Range", "bytes %d-%d/%d" % (a, b, len(data)))
             self.send_header("Content-Length", str(len(body))); self.end_headers(); self.wfile.write(body); return
-        bnd = srv.boundary
+        with srv.lock:
+            srv.nresp = getattr(srv, "nresp", 0) + 1
+            bnd = srv.boundary + b"%d" % srv.nresp          # a fresh boundary for every response, as real servers do
         body = b""
         for (a, b) in ranges:
             body += b"\r\n--" + bnd + b"\r\nContent-Type: application/octet-stream\r\nContent-Range: bytes %d-%d/%d\r\n\r\n" % (a, b, len(data)) + data[a:b + 1]
